@@ -7,6 +7,7 @@ NOTES = {
  "mixed-block": "a numeric comparison in the search clause does not evaluate numbers stored in a block whose column also holds text (column consolidated to strings); the `where` stage and the reference model do",
  "int-vs-decimal": "integer-typed stored value vs decimal literal in the search clause: fopOnNumber converts UnsignedVal and compareNumberDte compares the truncated SignedVal (and range pruning drops the block), so a>1.5 / a>=2.5 / a=2.0 answer wrongly on int columns",
  "col-absent-in-block": "a block in which the column never occurs: whether its events match depends on the time range and on neighbouring blocks (stale per-column state), so events without the field are returned or events are lost",
+ "numstr-block": "a block in which the column holds numbers next to strings that all read as numbers is converted to numbers when it is written; NOT of an equality with a text literal (NOT a=x) then returns nothing at all, although no event equals the literal and the events whose value was sent as a string are subject to the comparison",
  "bool-column": "an equality on a bool column returns nothing when it is the whole search but does filter inside AND/OR, so AND/OR are not intersection/union of their operands' results",
  "negated-free-text": "NOT applied to a free-text term is ignored inside NOT/AND NOT/NOT(... OR ...): events containing the term are returned",
 }
